@@ -110,7 +110,7 @@ def run_split(run, drv):
         # generator mode through the proxy
         rec = Rec(shape)
         try:
-            with time_limit(5):
+            with time_limit(60):
                 got = list(_split_tensordict(rec, cs, nc, w, dim, use_generator=True))
             impl = ["ok"]
             for idx in got:
@@ -130,7 +130,7 @@ def run_split(run, drv):
         # eager mode through the proxy
         rec = Rec(shape)
         try:
-            with time_limit(5):
+            with time_limit(60):
                 _split_tensordict(rec, cs, nc, w, dim, use_generator=False)
             c = rec.calls[0] if len(rec.calls) == 1 else ["calls", len(rec.calls)]
             if c[0] == "unbind":
@@ -149,7 +149,7 @@ def run_split(run, drv):
             for gen, mans in ((True, mg), (False, mer)):
                 _, mrows = model_pieces(mans)
                 try:
-                    with time_limit(5):
+                    with time_limit(60):
                         chunks = list(_split_tensordict(td, cs, nc, w, dim, use_generator=gen))
                     rows = []
                     ok = True
@@ -190,7 +190,7 @@ def run_split(run, drv):
             for name, mans in (("split", ms), ("chunk", mc)):
                 run.case(("td" + name, n, s, shape, dim))
                 try:
-                    with time_limit(5):
+                    with time_limit(60):
                         chunks = getattr(td, name)(s, dim)
                     impl = ["ok", [[int(x.reshape(-1)[0]) if x.numel() else -1 for x in c["r"].movedim(dim, 0)] for c in chunks]]
                 except TimeoutError as e:
